@@ -14,10 +14,22 @@ it hold for the code as found as well.
 import TboxModel.C01.Proofs
 namespace Tbox.C01
 
-/-- **exactly once / exactly one place.**  At every point of every execution each id handed out
-so far is in exactly one of {run-in-loop queue, run-next queue, batch being executed, shutdown
-batch, executed, cancelled} and occurs there once; ids never handed out occur nowhere. -/
-theorem C01_exactly_once (cfg : Cfg) (sts : List Step) (s : State) (he : exec cfg init sts = some s) (id : Nat) :
+/-- **assumption on RunId arithmetic**: the 64-bit id counters have not wrapped (fewer than 2^63
+submissions per entry point).  The model counts in `Nat`; under `NoWrap` the ids it hands out are the
+code's `uint64_t` values (`C01_ids_are_code_ids`) and the `== 0` re-allocation branch of
+`allocRunInLoopId` is dead.  The theorems that speak about ids carry it as a hypothesis on the state
+they describe; the counters only grow, so it then holds for every earlier state of the execution. -/
+def NoWrap (s : State) : Prop := s.inAlloc + 2 < 2 ^ 64 ∧ s.nextAlloc + 2 < 2 ^ 64
+
+instance (s : State) : Decidable (NoWrap s) := by unfold NoWrap; exact inferInstance
+
+theorem C01_ids_are_code_ids (s : State) (hw : NoWrap s) :
+    (s.inAlloc + 2) % 2 ^ 64 = s.inAlloc + 2 ∧ (s.inAlloc + 2) % 2 ^ 64 ≠ 0 ∧ (s.nextAlloc + 2) % 2 ^ 64 = s.nextAlloc + 2 := by
+  unfold NoWrap at hw
+  refine ⟨Nat.mod_eq_of_lt hw.1, ?_, Nat.mod_eq_of_lt hw.2⟩
+  rw [Nat.mod_eq_of_lt hw.1]; omega
+
+theorem exactly_once_core (cfg : Cfg) (sts : List Step) (s : State) (he : exec cfg init sts = some s) (id : Nat) :
     (idsOf s.inLoopQ).count id + (idsOf s.nextQ).count id + (idsOf s.tmpQ).count id + (idsOf s.dQ).count id +
       s.executed.count id + s.cancelled.count id = if accepted s id then 1 else 0 := by
   have h := (exec_inv cfg init sts init_inv s he).count id
@@ -25,17 +37,25 @@ theorem C01_exactly_once (cfg : Cfg) (sts : List Step) (s : State) (he : exec cf
   simp only [List.count_append, List.count_reverse] at h
   omega
 
+/-- **exactly once / exactly one place.**  At every point of every execution each id handed out
+so far is in exactly one of {run-in-loop queue, run-next queue, batch being executed, shutdown
+batch, executed, cancelled} and occurs there once; ids never handed out occur nowhere. -/
+theorem C01_exactly_once (cfg : Cfg) (sts : List Step) (s : State) (he : exec cfg init sts = some s) (_hw : NoWrap s) (id : Nat) :
+    (idsOf s.inLoopQ).count id + (idsOf s.nextQ).count id + (idsOf s.tmpQ).count id + (idsOf s.dQ).count id +
+      s.executed.count id + s.cancelled.count id = if accepted s id then 1 else 0 :=
+  exactly_once_core cfg sts s he id
+
 /-- a callable is invoked at most once — stated on the history (execution events of the log) -/
 theorem C01_executed_at_most_once (cfg : Cfg) (sts : List Step) (s : State) (he : exec cfg init sts = some s) (id : Nat) :
     (execIds s.log).count id ≤ 1 := by
-  have h := C01_exactly_once cfg sts s he id
+  have h := exactly_once_core cfg sts s he id
   rw [(exec_inv cfg init sts init_inv s he).logExec]
   split at h <;> omega
 
 /-- every id handed out and not cancelled that is no longer queued has been executed (nothing is dropped) -/
 theorem C01_not_dropped (cfg : Cfg) (sts : List Step) (s : State) (he : exec cfg init sts = some s) (id : Nat)
     (ha : accepted s id) (hq : id ∉ idsOf (pend s)) (hc : id ∉ s.cancelled) : id ∈ s.executed := by
-  have h := C01_exactly_once cfg sts s he id
+  have h := exactly_once_core cfg sts s he id
   simp only [ha, if_true] at h
   simp only [pend, idsOf_append, List.mem_append, not_or] at hq
   have h1 := List.count_eq_zero.2 hq.1.1.1
@@ -48,10 +68,10 @@ theorem C01_not_dropped (cfg : Cfg) (sts : List Step) (s : State) (he : exec cfg
 /-- **cancel is sound.**  If some `cancel(id)` returned true (a successful-cancel event is in the
 history) the callable has not been and — this holding in every reachable state — will never be
 invoked. -/
-theorem C01_cancel_sound (cfg : Cfg) (sts : List Step) (s : State) (he : exec cfg init sts = some s) (id : Nat)
+theorem C01_cancel_sound (cfg : Cfg) (sts : List Step) (s : State) (he : exec cfg init sts = some s) (_hw : NoWrap s) (id : Nat)
     (hc : id ∈ cancelIds s.log) : id ∉ execIds s.log := by
   have hi := exec_inv cfg init sts init_inv s he
-  have h := C01_exactly_once cfg sts s he id
+  have h := exactly_once_core cfg sts s he id
   rw [hi.logCanc] at hc
   rw [hi.logExec]
   have : 0 < s.cancelled.count id := List.count_pos_iff.2 hc
@@ -63,11 +83,11 @@ theorem C01_cancel_sound (cfg : Cfg) (sts : List Step) (s : State) (he : exec cf
 already been invoked (or is being invoked), or it was cancelled before, or it sits in the local
 batch of the shutdown drain (`cleanupDeferredTasks` moves the queues to locals that `cancel`
 cannot see: such a task is not cancellable any more and will be run). -/
-theorem C01_cancel_false_sound (cfg : Cfg) (sts : List Step) (s : State) (he : exec cfg init sts = some s) (id : Nat)
+theorem C01_cancel_false_sound (cfg : Cfg) (sts : List Step) (s : State) (he : exec cfg init sts = some s) (_hw : NoWrap s) (id : Nat)
     (hr : cancelRet s id = false) :
     ¬ accepted s id ∨ id ∈ s.executed ∨ id ∈ s.cancelled ∨ id ∈ idsOf s.dQ := by
   have hi := exec_inv cfg init sts init_inv s he
-  have h := C01_exactly_once cfg sts s he id
+  have h := exactly_once_core cfg sts s he id
   by_cases ha : accepted s id
   · right
     simp only [ha, if_true] at h
@@ -122,7 +142,7 @@ theorem C01_ids_follow_submission (s : State) (tid : Nat) (body : List Act) (id 
 and restricted to one entry point (p = 0: `runInLoop`, p = 1: `runNext`), are strictly
 increasing — with `C01_ids_follow_submission`: callables submitted through the same entry point,
 by one thread or by several, are invoked in submission order (cancelled ones are skipped). -/
-theorem C01_fifo_per_submitter (cfg : Cfg) (sts : List Step) (s : State) (he : exec cfg init sts = some s) (p : Nat) :
+theorem C01_fifo_per_submitter (cfg : Cfg) (sts : List Step) (s : State) (he : exec cfg init sts = some s) (_hw : NoWrap s) (p : Nat) :
     (par p s.executed.reverse).Pairwise (· < ·) := by
   have h := (exec_inv cfg init sts init_inv s he).order p
   rw [line, par_append] at h
@@ -216,10 +236,13 @@ theorem C01_pending_at_exit_run (cfg : Cfg) (sts : List Step) (s : State) (he : 
 
 /-! ### lock discipline (what the model can say about data-race freedom) -/
 
-/-- does the API call take lock_? (`runInLoop` always; `cancel` of an even id not found in the batch) -/
+/-- does the API call take lock_? (`runInLoop` always; `cancel` of an even id not found in the batch;
+`exitLoop` while the exit timer is armed: `deleteTimer` → `run()` looks at the running state under lock_) -/
 def actLocks (s : State) : Act → Bool
   | .inLoop _ => true
   | .cancel id => id != 0 && !hasId s.tmpQ id && id % 2 != 1
+  | .exit => s.exitTimer
+  | .exitLater => s.exitTimer
   | _ => false
 
 /-- the step runs (partly) inside a critical section of lock_ -/
@@ -253,7 +276,9 @@ theorem C01_lock_discipline (cfg : Cfg) (s : State) (st : Step) (hv : valid s st
     cases a with
     | inLoop k => simp [actLocks] at ha
     | next k => simp [doAct, submitNext]
-    | exit => simp [doAct]
+    | exit => simp only [actLocks] at ha; simp [doAct, dropExitTimer, ha]
+    | exitLater => simp only [actLocks] at ha; simp [doAct, dropExitTimer, ha]
+    | throw => simp [doAct]
     | cancel id =>
       simp only [actLocks, Bool.and_eq_false_iff, bne_eq_false_iff_eq, Bool.not_eq_false'] at ha
       simp only [doAct, cancel]
@@ -274,6 +299,7 @@ theorem C01_lock_discipline (cfg : Cfg) (s : State) (st : Step) (hv : valid s st
   | loopStart t f => simp [holdsLock] at hl
   | passWake => simp [holdsLock] at hl
   | passBegin => simp [step]
+  | timerExit => simp [step]
   | passSkip => simp [step]
   | passNext => simp [step]
   | execFront => simp only [step]; split <;> simp
@@ -314,6 +340,82 @@ theorem C01_loop_thread_only (cfg : Cfg) (s : State) (tid k : Nat) :
   exact ⟨h.2.1, h.2.2.1, h.2.2.2.1, h.2.2.2.2.2.2.1, h.2.2.2.2.1, h.2.2.2.2.2.2.2.1, h.2.2.2.2.2.2.2.2.1,
     h.2.2.2.2.2.2.2.2.2.1, h.2.2.2.2.2.2.2.2.2.2.2.2.1, h.2.2.2.2.2.2.2.2.2.2.2.2.2.1⟩
 
+/-- **a task in the shutdown batch is out of `cancel`'s reach** (the 4th case of
+`C01_cancel_false_sound`): `cancel` never changes the local batch, so the refused task stays queued
+there and is invoked by the drain (`C01_pending_at_exit_run`, `C01_exactly_once`). -/
+theorem C01_drain_batch_not_cancellable (s : State) (id : Nat) : (cancel s id).dQ = s.dQ := by
+  simp only [cancel]
+  split
+  · rfl
+  · split
+    · rfl
+    · split <;> rfl
+
+/-- **exit through the exit timer** (`exitLoop(wait_time)`): when the timer fires in a pass the loop
+leaves at the end of that very pass (the `while (keep_running_)` test fails) and enters the shutdown
+drain — the same exit path as `exitLoop()`, so drained-on-exit and the wake-up invariant cover it. -/
+theorem C01_exit_timer (cfg : Cfg) (s : State) (_hv : valid s .timerExit = true) :
+    (step cfg s .timerExit).keepRunning = false ∧ (step cfg s .timerExit).exitTimer = false ∧
+    ∀ s', s'.keepRunning = false → valid s' .passEnd = true → (step cfg s' .passEnd).phase = .drain := by
+  refine ⟨rfl, rfl, ?_⟩
+  intro s' hk _
+  simp [step, hk]
+
+/-- re-arming or cancelling an armed exit timer makes the loop submit a deferred task to itself
+(`deleteTimer` → `run()` → `runNext`): it takes the next odd id and is queued like any other. -/
+theorem C01_exit_timer_internal_task (cfg : Cfg) (s : State) (tid : Nat) (h : s.exitTimer = true) :
+    (doAct cfg s tid .exit).nextAlloc = s.nextAlloc + 2 ∧
+    idsOf (doAct cfg s tid .exit).nextQ = idsOf s.nextQ ++ [s.nextAlloc + 2] ∧
+    (doAct cfg s tid .exit).keepRunning = false ∧ (doAct cfg s tid .exit).exitTimer = false := by
+  simp [doAct, dropExitTimer, h, submitNext]
+
+/-! ### exceptions thrown by callables (repaired code: patches/C01-02) -/
+
+/-- **a throwing callable does not take the rest of the batch with it.**  The step in which the
+running callable throws changes nothing but the rest of its own script: all four queues, the phase,
+the flags are as before, and whatever is left of the batch (pass batch or shutdown batch) is the next
+thing the loop thread calls.  All other theorems of this file quantify over executions that contain
+such steps, so exactly-once, FIFO and drained-on-exit hold with throwing callables as well. -/
+theorem C01_throw_keeps_batch (cfg : Cfg) (s : State) (rest : List Act) (hc : s.cur = .throw :: rest) :
+    let s' := step cfg s .act
+    s'.cur = [] ∧ s'.tmpQ = s.tmpQ ∧ s'.dQ = s.dQ ∧ s'.nextQ = s.nextQ ∧ s'.inLoopQ = s.inLoopQ ∧ s'.phase = s.phase ∧
+    s'.executed = s.executed ∧ s'.keepRunning = s.keepRunning ∧ s'.remain = s.remain ∧
+    (s.tmpQ ≠ [] → (s.phase = .wake ∨ s.phase = .next) → valid s' .execFront = true) ∧
+    (s.dQ ≠ [] → s.phase = .drain → valid s' .drainExec = true) := by
+  simp only [step, hc, doAct, true_and]
+  refine ⟨?_, ?_⟩
+  · intro ht hp
+    rcases hp with hp | hp <;> simp [valid, hp, ht]
+  · intro hd hp
+    simp [valid, hp, hd]
+
+/-- program of the witness: task 1 throws, task 2 does nothing -/
+def throwProg : Nat → List Act
+  | 1 => [.throw]
+  | _ => []
+
+/-- a kOnce run with two runNext tasks submitted from a task of the single pass: both are pending at
+loop exit; the first one throws in the shutdown drain -/
+def throwWitness : List Step :=
+  [.submit 1 3, .loopStart 0 false, .passBegin, .passWake, .execFront, .act, .act, .passNext, .passEnd,
+   .drainGen, .drainExec, .act]
+
+def throwProg' : Nat → List Act
+  | 3 => [.inLoop 1, .inLoop 2]
+  | k => throwProg k
+
+/-- **the code as found drops the rest of the shutdown batch**: task 6 was handed out, is in no queue,
+was not executed and not cancelled (the exception unwound `cleanupDeferredTasks`). -/
+theorem C01_throw_drops_batch_counterexample :
+    (execFound (foundCfg throwProg') init throwWitness).map
+      (fun s => (decide (accepted s 6), idsOf (pend s), s.executed, s.cancelled, s.phase)) =
+      some (true, [], [4, 2], [], .idle) := by decide
+
+/-- the same schedule on the repaired code: task 6 is still in the batch and runs next -/
+theorem C01_throw_witness_repaired :
+    (exec (fixedCfg throwProg') init (throwWitness ++ [.drainExec, .drainEnd])).map
+      (fun s => (idsOf (pend s), s.executed, s.phase)) = some ([], [6, 4, 2], .idle) := by decide
+
 /-! ### non-vacuity: concrete executions satisfying the hypotheses -/
 
 /-- tasks: 1 = [runNext 0, cancel 5 (hit in the queue), runNext 0, exit], 2 = [cancel 2 (already run)] -/
@@ -344,6 +446,17 @@ example : (exec (fixedCfg witnessProg) init witness).map (fun s => (s.phase, s.e
 /-- `C01_cancel_sound` / `C01_cancel_false_sound`: a successful cancel and a refused one occur in `demo` -/
 example : (exec (fixedCfg demoProg) init demo).map (fun s => (cancelIds s.log, s.log.filter (fun e => e matches .cancel _ false))) =
     some ([3], [.cancel 2 false]) := by decide
+/-- `C01_exit_timer` / `C01_exit_timer_internal_task`: a run where the exit timer is armed from a callable,
+fires in the next pass, is armed again while idle and dropped by `exitLoop()` (internal task 5) -/
+example : (exec (fixedCfg (fun k => if k = 1 then [.exitLater] else [])) init
+    [.submit 1 1, .loopStart 0 true, .passBegin, .passWake, .execFront, .act, .passNext, .passEnd,
+     .passBegin, .timerExit, .passSkip, .passNext, .passEnd, .drainEnd, .idleAct 0 .exitLater, .idleAct 0 .exit]).map
+    (fun s => (s.phase, s.exitTimer, s.keepRunning, idsOf s.nextQ)) = some (.idle, false, false, [3]) := by decide
+/-- `NoWrap` holds in the demo's final state -/
+example : (exec (fixedCfg demoProg) init demo).map (fun s => decide (NoWrap s)) = some true := by decide
+/-- `C01_throw_keeps_batch`: a state in which the running callable is about to throw with a task left in the batch -/
+example : (exec (fixedCfg throwProg') init (throwWitness.take 11)).map (fun s => (s.cur, idsOf s.dQ, s.phase)) =
+    some ([.throw], [6], .drain) := by decide
 /-- `C01_lock_discipline`: a lock-free step (runNext from a callable) in a non-exclusive state -/
 example : (exec (fixedCfg demoProg) init (demo.take 6)).map (fun s => (valid s .act, holdsLock s .act, exclusive s)) =
     some (true, false, false) := by decide
